@@ -1228,15 +1228,38 @@ impl Compiler {
             return self.compile_assign_to_map(target, expression, export_assignment, ctx);
         }
 
+        // If the target is a local that's already assigned, then it can be referred to by the RHS.
+        // The RHS can only be compiled directly into the local's register when it's guaranteed to
+        // have finished reading the local before its result gets written, otherwise it's compiled
+        // into a temporary register and then copied across.
+        let reassigned_local = match ctx.node(target) {
+            Node::Id(id, ..) => self.frame().get_local_assigned_register(*id),
+            _ => None,
+        };
+        let copy_via_temporary =
+            reassigned_local.is_some() && !Self::writes_result_after_reading(expression, ctx);
+
         let local_assign_register = self.local_registers_for_assign_target(target, ctx)?;
         let value_result_register = match local_assign_register.first() {
+            Some(_) if copy_via_temporary => ResultRegister::Any,
             Some(local) => ResultRegister::Fixed(*local),
             None => ResultRegister::Any,
         };
 
-        let value_result =
+        let mut value_result =
             self.compile_node(expression, ctx.with_register(value_result_register))?;
-        let value_register = value_result.unwrap(self)?;
+        let mut value_register = value_result.unwrap(self)?;
+
+        if let (true, Some(local)) = (copy_via_temporary, reassigned_local) {
+            if value_register != local {
+                self.push_op(Copy, &[local, value_register]);
+            }
+            if value_result.is_temporary {
+                self.pop_register()?;
+            }
+            value_register = local;
+            value_result = CompileNodeOutput::with_assigned(local);
+        }
 
         let target_node = ctx.node_with_span(target);
         self.push_span(target_node, ctx.ast);
@@ -1295,6 +1318,36 @@ impl Compiler {
         self.pop_span();
 
         Ok(result)
+    }
+
+    // Returns true if the expression's result is only written to its result register after all
+    // of its inputs have been read, i.e. when it's a value, or a single operation on values.
+    fn writes_result_after_reading(expression: AstIndex, ctx: CompileNodeContext) -> bool {
+        let is_value = |node: AstIndex| {
+            matches!(
+                ctx.node(node),
+                Node::Null
+                    | Node::BoolTrue
+                    | Node::BoolFalse
+                    | Node::SmallInt(_)
+                    | Node::Int(_)
+                    | Node::Float(_)
+                    | Node::Id(..)
+            )
+        };
+
+        match ctx.node(expression) {
+            Node::BinaryOp { op, lhs, rhs } => {
+                !matches!(op, AstBinaryOp::And | AstBinaryOp::Or | AstBinaryOp::Pipe)
+                    && is_value(*lhs)
+                    && is_value(*rhs)
+            }
+            Node::UnaryOp { value, .. } => is_value(*value),
+            // Functions are created in the target register first, with captures then copied in,
+            // which allows a function to capture itself when its local gets reassigned.
+            Node::Function(_) => true,
+            _ => is_value(expression),
+        }
     }
 
     fn compile_assign_to_map(
